@@ -45,7 +45,7 @@ BASE = dict(ntasks=(1, 6), nseg=(1, 3), nleaf=(0, 3), nkinds=(1, 2), depth=1,
             p_raise=0.0, p_errleaf=0.0, p_lazyfail=0.0, p_bad=0.0, p_catch=0.0,
             p_sync=0.0, p_spawn=0.0, ctx_types=(), p_ctx=0.0, nvars=0, p_read=0.0, faulty=(),
             ncalls=1, convs=("call", "value"), p_result=0.3, containers=("Tup", "Lst", "Dct"),
-            p_dedup=0.0, p_dirty=0.0, ndfn=(1, 2), nkeys=2)
+            p_dedup=0.0, p_dirty=0.0, ndfn=(1, 2), nkeys=2, p_ival=0.0)
 
 PROFILES = {
     "plain": dict(BASE),
@@ -83,6 +83,9 @@ PROFILES = {
     "dedupsync": dict(BASE, ntasks=(3, 9), p_dedup=0.4, p_task=0.25, p_item=0.2, p_dirty=0.25, p_sync=0.2),
     "overflowbatch": dict(BASE, ntasks=(4, 9), nleaf=(1, 3), p_task=0.45, p_item=0.45, p_sync=0.1, maxstack=(3, 6), ncalls=3,
                           nkinds=(2, 3), p_catch=0.3),
+    "cleanup": dict(BASE, ntasks=(3, 8), ctx_types=("cleanup", "cleanup", "async"), p_ctx=0.6, p_result=0.7, p_sync=0.1, p_raise=0.1, p_catch=0.3),
+    "ival": dict(BASE, ntasks=(2, 7), nkinds=(1, 3), p_ival=0.5, p_share=0.1, flush_modes=("ok", "ok", "itemerr", "skip", "raise"), p_catch=0.3,
+                 p_sync=0.1),
     "everything": dict(BASE, ntasks=(2, 8), nkinds=(1, 3), bases=(0, 1), p_share=0.1, p_reyield=0.05,
                        flush_modes=("ok", "ok", "itemerr", "skip", "raise"), p_raise=0.08, p_errleaf=0.04, p_bad=0.03,
                        p_catch=0.35, p_sync=0.15, ctx_types=("async", "override"), p_ctx=0.35, nvars=1, p_read=0.3),
@@ -188,7 +191,7 @@ class Gen(object):
         spawned = []
         for k in range(1, nseg + 1):
             ops = []
-            nops = r.randint(0, 3) if (p["p_ctx"] or p["p_sync"] or p["p_read"] or p["p_spawn"] or p["p_dirty"]) else 0
+            nops = r.randint(0, 3) if (p["p_ctx"] or p["p_sync"] or p["p_read"] or p["p_spawn"] or p["p_dirty"] or p["p_ival"]) else 0
             for _ in range(nops):
                 x = r.random()
                 if p["ctx_types"] and x < p["p_ctx"]:
@@ -197,6 +200,14 @@ class Gen(object):
                     elif len(open_ctx) < 3:
                         ty = r.choice(p["ctx_types"])
                         var = r.randint(1, p["nvars"]) if ty in ("override", "attr") else 0
+                        if ty == "cleanup":
+                            u = self.alloc()
+                            if u is None:
+                                continue
+                            self.sync_targets.add(u)
+                            # the cleanup target cannot fail and ends with result()
+                            self.predefined[u] = {"segs": ([seg([], term("yield", S("C", 1)))] if r.random() < 0.5 else []) + [seg([], term("result"))]}
+                            var = u
                         faulty = r.choice(p["faulty"]) if (p["faulty"] and ty == "async") else "-"
                         self.ctxs.append(ctx(ty, var, r.choice((10, 10, 20, 30 + len(self.ctxs) % 10)), faulty))
                         c = len(self.ctxs)
@@ -210,6 +221,9 @@ class Gen(object):
                 elif p["nvars"] and x < p["p_ctx"] + p["p_sync"] + p["p_read"]:
                     v = r.randint(1, p["nvars"])
                     ops.append(op("read", v if r.random() < 0.5 or "attr" not in p["ctx_types"] else 100 + v))
+                elif p["p_ival"] and r.random() < p["p_ival"]:
+                    if not any(o["o"] == "ival" for o in ops):          # at most one per segment (item ids)
+                        ops.append(op("ival", r.randint(1, self.nk)))
                 elif p["p_dirty"] and self.dedup_inst and r.random() < p["p_dirty"]:
                     ops.append(op("dirty", r.choice(self.dedup_inst)))
                 elif p["p_spawn"] and r.random() < p["p_spawn"]:
